@@ -50,8 +50,9 @@ def _fake_open(path, mode='r'):
         raise IOError(2, 'No such file or directory')
 
     class F(object):
-        def read(self_inner):
-            return COOKIE[:1] * 0 + (COOKIE * 3)[:_env['cookie_len']]
+        def read(self_inner, size=-1):
+            data = COOKIE[:1] * 0 + (COOKIE * 3)[:_env['cookie_len']]
+            return data if size is None or size < 0 else data[:size]
 
         def close(self_inner):
             pass
